@@ -196,6 +196,131 @@ def config_tables(e3):
     check.discharge_many(e3.res, specs, 60)
 
 
+TRACING = [r"tracing", r"__CALLSITE", r"LevelFilter", r"DefaultCallsite", r"Interest", r"ValueSet", r"FieldSet", r"Metadata", r"Event::", r"__macro_support", r"fmt::Arguments", r"core::fmt",
+           r"^Arguments::", r"^debug$", r"^display$", r"tracing-0\\.1", r"^Span::", r"^TelemetryUpdate::"]
+
+
+def flush_history(e3, nflush):
+    """State::flush called `nflush` times on a registry with one counter; what AtomicCounter::flush returns each time
+    ((delta, update count)) is symbolic. The sends must follow the documented idle protocol."""
+    from mirsmt import models_str as MS
+    from mirsmt.sym import Ptr, Agg, Enum, Native, Fork, UNIT, bv, Opaque
+    P = _e3.program(["metrics-exporter-dogstatsd"])
+    b = P.find("State", "flush")
+    deltas = [z3.BitVec(f"delta{i}", 64) for i in range(nflush)]
+    upds = [z3.BitVec(f"updates{i}", 64) for i in range(nflush)]
+    key = Native("key", "K")
+
+    def m_handles(kind):
+        def h(eng, ctx, f, path, args, dty):
+            return MS.lmap([(key, Native("counter_handle", None))]) if kind == "counter" else MS.lmap([])
+        return h
+
+    def m_counter_flush(eng, ctx, f, path, args, dty):
+        i = ctx.statics.get("flush_no", 0)
+        return Agg({0: deltas[i], 1: upds[i]})
+
+    def m_write_counter(eng, ctx, f, path, args, dty):
+        ctx.observe("write_counter", flush=ctx.statics.get("flush_no", 0), value=args[2])
+        return Agg({0: bv(1), 1: bv(0)})
+    # HashSet<Key> with the single key of this scenario: a boolean cell (contains / insert / remove by their std contracts)
+
+    def hs(eng, ctx, p):
+        v = eng.load_ptr(ctx, p) if isinstance(p, Ptr) else p
+        if not (isinstance(v, Native) and v.kind == "keyset"):
+            raise sym.Unsupported(f"HashSet value {v}")
+        return v
+
+    def m_contains(eng, ctx, f, path, args, dty):
+        return hs(eng, ctx, args[0]).data
+
+    def m_insert(eng, ctx, f, path, args, dty):
+        old = hs(eng, ctx, args[0]).data
+        eng.store_ptr(ctx, args[0], Native("keyset", z3.BoolVal(True)))
+        return z3.Not(old)
+
+    def m_remove(eng, ctx, f, path, args, dty):
+        old = hs(eng, ctx, args[0]).data
+        eng.store_ptr(ctx, args[0], Native("keyset", z3.BoolVal(False)))
+        return old
+    m = dict(MS.LIST)
+    m.update({r"get_counter_handles$": m_handles("counter"), r"get_gauge_handles$": m_handles("gauge"), r"get_histogram_handles$": m_handles("histogram"),
+              r"^AtomicCounter::flush$": m_counter_flush, r"^PayloadWriter::write_counter$": m_write_counter, r"HashMap::len$": lambda *a: bv(0),
+              r"^HashSet::contains$": m_contains, r"^HashSet::insert$": m_insert, r"^HashSet::remove$": m_remove,
+              r"^<Key as Clone>::clone$": models.m_identity, r"^Key::name$": lambda *a: Opaque("name"), r"^core::str::starts_with$": lambda eng, ctx, f, path, args, dty: eng.fresh("is_internal_metric", "bool"),
+              r"Option::as_deref$": lambda *a: Enum(0, {}, "Option"), r"^<Vec as Deref>::deref$|^<Arc as Deref>::deref$": models.m_identity,
+              r"^State::get_aggregation_timestamp$": lambda *a: Enum(0, {}, "Option"),
+              r"Level as PartialOrd>::le$": lambda *a: z3.BoolVal(False)})
+    m.update(models.BASE)
+    eng = sym.Engine(P, models=m, opaque=TRACING, loop_bound=3, max_paths=5000)
+    eng.merging = False
+    ctx0 = sym.Ctx(eng, 1)
+    ctx0.statics = {"state": Agg({0: Agg({0: Opaque("agg_mode"), 1: z3.BoolVal(False), 2: z3.BoolVal(False), 3: bv(0), 4: z3.BoolVal(False), 5: Native("strvec", ()), 6: Enum(0, {}, "Option")}), 1: Opaque("registry")}),
+                    "fs": Agg({0: Native("keyset", z3.BoolVal(False))}), "flush_no": 0}
+
+    def script():
+        for i in range(nflush):
+            yield ("setstatic", "flush_no", i)
+            yield ("call", b, [Ptr(("static", "state")), Ptr(("static", "fs")), Opaque("writer"), Opaque("telemetry")])
+        return None
+    leaves = eng.run_script(1, f"State::flush x{nflush}", script, ctx0=ctx0)
+    e3.absorb(eng)
+    done = [l for l in leaves if l.status == "done"]
+    other = z3.Or(*[l.taken() for l in leaves if l.status != "done"] or [z3.BoolVal(False)])
+    # what AtomicCounter::flush can return sequentially: no updates => no delta (the converse race is K6, checked at the storage level)
+    base = [z3.Implies(upds[i] == bv(0), deltas[i] == bv(0)) for i in range(nflush)]
+    # reference protocol: a flush is sent iff the counter was updated since the last flush, or it is the first idle flush after activity
+    bad_sent, bad_value = [], []
+    for l in done:
+        sent = {}
+        for lab, e, pl in l.obs:
+            if lab == "write_counter":
+                sent.setdefault(pl["flush"], []).append((e.guard, pl["value"]))
+        idle = z3.BoolVal(False)
+        wrong = z3.BoolVal(False)
+        wrongv = z3.BoolVal(False)
+        for i in range(nflush):
+            active = upds[i] != bv(0)
+            expect = z3.Or(active, z3.Not(idle))
+            n_sent = z3.Sum(*[z3.If(g, 1, 0) for g, v in sent.get(i, [])] + [z3.IntVal(0), z3.IntVal(0)])
+            wrong = z3.Or(wrong, n_sent != z3.If(expect, 1, 0))
+            wrongv = z3.Or(wrongv, *[z3.And(g, v != deltas[i]) for g, v in sent.get(i, [])])
+            idle = z3.Not(active)
+        bad_sent.append(z3.And(l.taken(), wrong))
+        bad_value.append(z3.And(l.taken(), wrongv))
+    cname = f"c10_flush_history_{nflush}"
+    bounds = (f"State::flush x{nflush} on one counter; each AtomicCounter::flush result (delta, updates) arbitrary with updates = 0 => delta = 0; gauges and histograms absent; "
+              f"the writer accepts every counter; {len(done)} paths")
+
+    def on_model(ob, model):
+        ev = lambda t: model.eval(t, model_completion=True)
+        hist = [(ev(deltas[i]).as_long(), ev(upds[i]).as_long()) for i in range(nflush)]
+        ob.sample = {"flush_results_(delta,updates)": hist}
+        import replay_e3
+        os.makedirs(os.path.join(REPLAYS, "C10"), exist_ok=True)
+        pp = os.path.join(REPLAYS, "C10", f"{cname}.{ob.name.split(':')[1]}.plan")
+        inputs = {"n": nflush}
+        for i, (d, u) in enumerate(hist):
+            inputs[f"active{i}"] = int(u != 0)
+        open(pp, "w").write(replay_e3.plan_text("c10_flush_history", ob.name.split(":")[1], {}, [], inputs))
+        status, out = replay_e3.run("c10", pp)
+        ob.detail += f" | native replay (c10, real State + writer): {status}"
+        ob.sample["native_replay"] = {"status": status, "output": out[-500:]}
+        ob.replay = pp
+        ob.reproduced = status == "reproduced"
+        if not ob.reproduced:
+            ob.status = "error"
+            ob.detail += " — counterexample did NOT reproduce natively: treated as an encoder/model problem, not reported as a violation"
+    specs = [dict(name=f"{cname}:witness", desc="the flushes return", bounds=bounds, cons=base + [z3.Or(*[l.taken() for l in done] or [z3.BoolVal(False)])], expect_unsat=False),
+             dict(name=f"{cname}:returns", desc="flush panics or exceeds a loop bound", bounds=bounds, cons=base + [other], expect_unsat=True),
+             dict(name=f"{cname}:idle_protocol", desc="a counter that was updated is not sent, a counter that stopped changing is not sent as zero exactly once, or it is sent again while idle",
+                  bounds=bounds, cons=base + [z3.Or(*bad_sent) if bad_sent else z3.BoolVal(False)], expect_unsat=True, on_model=on_model),
+             dict(name=f"{cname}:sends_the_flushed_delta", desc="the value written is not the delta the storage returned", bounds=bounds,
+                  cons=base + [z3.Or(*bad_value) if bad_value else z3.BoolVal(False)], expect_unsat=True, on_model=on_model)]
+    from mirsmt import check
+    check.discharge_many(e3.res, specs, 120)
+
+
 SCEN = [("inc_flush", "c10_inc_flush", ["K6"]), ("inc2_flush2", "c10_inc2_flush2", ["K6"]), ("abs2_flush", "c10_abs2_flush", ["K7"]),
         ("gauge_set_flush", "c10_gauge_set_flush", []), ("gauge_inc_flush", "c10_gauge_inc_flush", [])]
 
@@ -211,6 +336,11 @@ def run(tier, seed, t0):
         config_tables(e3)
     except sym.Unsupported as ex:
         e3.error("c10_tables", "decision tables of State::get_aggregation_timestamp / is_length_prefixed", ex)
+    for n in ([4] if tier == "quick" else [3, 4, 5]):
+        try:
+            flush_history(e3, n)
+        except sym.Unsupported as ex:
+            e3.error(f"c10_flush_history_{n}", "MIR->SMT encoding of State::flush", ex)
     obs = list(e3.res.obligations)
     obs += kani.run_group("dsd", HARNESSES, tier, hooks=True, stubbing=True)
     finish("C10", tier, seed, obs, t0, ASSUME + ["E3 callee models: " + ", ".join(sorted(e3.models))], sorted(e3.functions) + FUNCS_E1,
